@@ -135,6 +135,7 @@ var clauseKeywords = map[string]bool{
 	"pure": true, "trusted": true, "nosafety": true, "noframe": true, "use": true, "lemma": true, "axiom": true,
 	"spec": true, "smt": true, "property": true, "overflow": true, "maypanic": true, "assert": true,
 	"callpre": true, "inline": true, "noinline": true, "inline-depth": true, "iface": true, "opt": true, "end": true,
+	"package": true,
 }
 
 // ParseContractFile reads one contract file.
@@ -192,6 +193,9 @@ func ParseContractFile(path, pkg string) (*ContractFile, error) {
 	}
 	for _, c := range clauses {
 		switch c.kw {
+		case "package":
+			// header of a specs/*.gospec file (the package the trusted contracts are about)
+			cur = nil
 		case "property":
 			props = strings.Fields(c.text)
 			cur = nil
